@@ -148,8 +148,8 @@ Fixpoint steps_ok (c : cfg) (ros : list bool) (uuids : list string) (before : li
 (* ---- fresh_survives over the whole history ---- *)
 (* after an acknowledged Put/Touch of h at time t: at every later point with now < t + ttl some volume
    still holds the block file h (the model theorem is stronger: with mtime >= t).
-   [excl_untrash]: stop looking once an Untrash of h occurs (F20: Untrash renames an older trashed
-   copy over the fresh one, after which a trash request may remove it). *)
+   [excl_untrash] = true stops looking at an Untrash of h: only used to state the old finding F20
+   (before /repo fa470fa Untrash renamed an older trashed copy over the fresh one); spec_b uses false. *)
 Definition fresh_at (h : string) (t : Z) (ls : list listing) : bool :=
   existsb (fun l => l_has_block l h) ls.
 Fixpoint fresh_later (c : cfg) (excl_untrash : bool) (h : string) (t : Z) (sts : list sobs) : bool :=
@@ -180,11 +180,6 @@ Fixpoint clock_ok (prev : Z) (sts : list sobs) : bool :=
 Definition spec_nofresh_b (c : case) : bool :=
   steps_ok (c_cfg c) (c_ro c) (c_uuid c) (c_init c) (c_steps c).
 Definition spec_b (c : case) : bool := spec_nofresh_b c && fresh_ok (c_cfg c) false (c_steps c).
-(* known finding F20: the only clause violated is fresh_survives, and it holds again once the search
-   stops at an Untrash of the same hash *)
-Definition known_F20_b (c : case) : bool :=
-  spec_nofresh_b c && negb (fresh_ok (c_cfg c) false (c_steps c)) && fresh_ok (c_cfg c) true (c_steps c).
-
 (* ---- model = observation ---- *)
 Fixpoint mk_vols (ros : list bool) (uuids : list string) (ls : list listing) : list vol :=
   match ros, uuids, ls with
@@ -209,7 +204,7 @@ Definition model_b (c : case) : bool :=
 
 Definition check_case (c : case) : N :=
   ((if model_b c then 0 else 1) +
-   (if spec_b c then 0 else if known_F20_b c then 4 else 2))%N.
+   (if spec_b c then 0 else 2))%N.
 
 Fixpoint failing_from (i : N) (cs : list case) : list (N * N) :=
   match cs with
